@@ -45,6 +45,17 @@ func Run(cfg hx.Config) (*hx.Meta, error) {
 		}
 	}
 	cases = uniq
+	ntwin := 0
+	for _, c := range Twins(r.Fork(3), cfg.Tier) {
+		valid := true
+		for _, a := range append(append([]*Ty{}, c.Args...), c.Second...) {
+			valid = valid && a.ValidArg()
+		}
+		if valid {
+			cases = append(cases, c)
+			ntwin++
+		}
+	}
 
 	outs := make([]Outcome, len(cases))
 	hx.Parallel(len(cases), 16, func(i int) {
@@ -77,7 +88,11 @@ func Run(cfg hx.Config) (*hx.Meta, error) {
 		if o.Class == "harness-error" {
 			return nil, fmt.Errorf("C09 harness: %s", o.Detail)
 		}
-		line := fmt.Sprintf("(run %s %s %s)", c.Plugin, c.ArgsSexp(), o.Class)
+		kind := "run"
+		if c.Second != nil {
+			kind = "twin"
+		}
+		line := fmt.Sprintf("(%s %s %s %s)", kind, c.Plugin, c.ArgsSexp(), o.Class)
 		fmt.Fprintln(w, line)
 		meta.Count("class/" + strings.SplitN(c.Class, "/", 2)[0])
 		meta.Count("plugin/" + c.Plugin)
@@ -149,7 +164,7 @@ func loadCorpus(dir string) ([]Case, error) {
 			if err != nil {
 				return nil, fmt.Errorf("corpus %s: %v in %q", e.Name(), err, line)
 			}
-			cs = append(cs, Case{sp[0], args, "corpus/" + strings.TrimSuffix(e.Name(), ".case")})
+			cs = append(cs, Case{Plugin: sp[0], Args: args, Class: "corpus/" + strings.TrimSuffix(e.Name(), ".case")})
 		}
 	}
 	return cs, nil
